@@ -17,6 +17,43 @@ CHECKS = {
             "right level because the function is a pure formula over substitutable inputs.",
             "linux code path only; inputs are substituted at the names the function reads them through; "
             "quota < 2**40", "DESIGN.md §6 C17"),
+    "C01": ("SIM", "Hypothesis-generated (program, schedule, crash points, timer firings) run on loky's real code over a "
+                   "simulated kernel; oracle = history invariant (quiescent, every call returned, every future done, nothing "
+                   "left running after release); known findings excluded by construction and replayed",
+            "Bounded liveness by generated-schedule search: thousands of distinct (program, schedule, fault) cases per run, "
+            "each run to quiescence under a deterministic scheduler that owns every blocking point, timer and crash "
+            "placement. Exploration only; it is the right level because the property quantifies over schedules and crash "
+            "points that only a harness owning the schedule can enumerate, and absence cannot be shown by this family.",
+            "trusted: the SIM kernel model (DESIGN.md App. A), fairness bound T=1 s, no preemption between pure-Python "
+            "statements; <=4 workers, <=3 user threads, <=2 deaths; placements of 6 open known findings are excluded",
+            "DESIGN.md §2, §6 C01"),
+    "C02": ("SIM", "Hypothesis-generated crash placement (k-th worker, n-th scheduling point, cause) + schedules on the "
+                   "simulated kernel; oracle = snapshot-at-death history invariant (kept outcomes, broken-pool errors naming "
+                   "exit codes, refused probe submit, all workers dead and joined)",
+            "Every generated death point x cause x schedule is run to quiescence and the whole-pool outcome is compared "
+            "with the statement; the histogram death_at:* shows the program-point classes reached. Exploration.",
+            "SIM kernel model; real signals/descendant killing are not simulated (kill_process_tree is substituted); "
+            "placements of open findings F-e/F-f/F-i/F-j excluded", "DESIGN.md §6 C02"),
+    "C03": ("SIM", "Hypothesis cases (submit/cancel/map from 1-3 threads, idle timeouts, resizes) on the simulated kernel with "
+                   "an execution log; oracle = own-token value, <=1 execution, 0 after cancel()==True, map == builtin map; "
+                   "plus pure Hypothesis differential of the chunking helpers vs builtin map",
+            "Differential against builtin map and an execution-count invariant over generated histories and schedules. "
+            "Exploration.", "fault-free histories only (a death legitimately leaves a task half-run); SIM kernel model",
+            "DESIGN.md §6 C03"),
+    "C04": ("SIM", "Hypothesis cases mixing healthy tasks with raising / unpicklable-argument / struct.error / unpicklable-"
+                   "result tasks and raising callbacks on small call queues; oracle = per-future own outcome with "
+                   "_RemoteTraceback cause, no broken-pool error anywhere, probe burst of capacity+2 completes",
+            "Containment checked on every sibling future and on the slot accounting (probe burst) for every generated mix, "
+            "position and schedule. Exploration.",
+            "exception classes that round-trip through pickle (precondition of the statement); SIM kernel model",
+            "DESIGN.md §6 C04"),
+    "C05": ("SIM", "Hypothesis cases ending in shutdown(wait=True/False) / del / interpreter exit placed anywhere by the "
+                   "generated schedule, idle timers adversarial; oracle = all prior futures own outcome, no broken flag, all "
+                   "workers exit 0 and joined, manager ended, later submit raises ShutdownExecutorError",
+            "Drain-and-leave-nothing invariant evaluated at quiescence over generated shutdown points and schedules. "
+            "Exploration.",
+            "SIM kernel model; open findings F-a (collected executor + all workers idle out) and F-i excluded by "
+            "construction", "DESIGN.md §6 C05"),
 }
 
 NOT_YET = {}
